@@ -229,6 +229,23 @@ def rule_absolute_paths(ctx, rid="R6.5"):
     prog = ctx.prog
     E = prog.cls("exceptions._Error")
     r = ctx.rule(rid, "absolute paths are the parent's absolute path followed by the relative one; relative_* alias path/schema_path; context errors get their parent", floor=5)
+    from .errsem import paths_eval
+    sem = paths_eval(prog)
+    if sem is not None:
+        # decided on a three-level tree of the package's own error objects built inside the definitional interpreter
+        init = E.methods["__init__"]
+        for clause, where, key in (("absolute_path", E.methods.get("absolute_path"), "%s|shape"), ("absolute_schema_path", E.methods.get("absolute_schema_path"), "%s|shape"),
+                                   ("alias", init, "%s|alias|path"), ("parent-links", init, "%s|parent-links"), ("raises", init, "%s|raises")):
+            if clause not in sem:
+                continue
+            w = where if where is not None else init
+            if sem[clause] is None:
+                r.ok(site(w) + " [%s]" % clause, "holds on the evaluated error tree (root, two children, one grandchild)")
+            else:
+                r.fail(key % w.qual, site(w), sem[clause])
+        if "raises" not in sem:
+            r.ok(site(init) + " [context]", "the context list is stored as given")
+        return r
     for name, rel in (("absolute_path", "relative_path"), ("absolute_schema_path", "relative_schema_path")):
         m = E.methods.get(name)
         if m is None:
@@ -425,6 +442,15 @@ def rule_json_path(ctx, rid="R6.7"):
     prog = ctx.prog
     r = ctx.rule(rid, "json_path walks absolute_path and never renders a property name by the statement that renders an array index", floor=1)
     m = find_method(prog, "exceptions._Error", "json_path")
+    from .errsem import json_path_eval
+    sem = json_path_eval(prog)
+    if sem is not None:
+        if sem["json_path"] is None:
+            r.ok(site(m), "renders the absolute path: indices in brackets, names dotted, also for digit-only names (evaluated on nested errors)")
+        else:
+            kind = "source" if "expected '$.a[0]" in sem["json_path"] else "index-and-name-share-rendering"
+            r.fail("%s|%s" % (m.qual, kind), site(m), sem["json_path"])
+        return r
     cfg = cfg_of(m)
     s = m.params[0]
     loops = [n for n in cfg.live if n.kind == "for"]
